@@ -45,6 +45,7 @@ class Aggregate:
         if val.get("violations"):
             self.violating_runs += 1
         if "case" in val and len(self.samples) < 3 and 0 <= idx < 3:
+            val["case"] = {k: v for k, v in val["case"].items() if not k.startswith("_cache_")}
             self.samples.append({"run_seed": run_seed, "case": self.prop.sample_view(val["case"])
                                  if hasattr(self.prop, "sample_view") else val["case"],
                                  "digest": val["digest"]})
